@@ -114,11 +114,19 @@ func (self Value) GetByPath(pathes ...Path) Value {
 	var err error
 
 	for i, path := range pathes {
+		// the path kind must fit the type of the value it is applied to
+		if !pathFitsType(path.t, desc.Type()) {
+			return errValue(meta.ErrUnsupportedType, fmt.Sprintf("%dth path %s dismatches value type %s", i, path, desc.Type()), nil)
+		}
 		switch path.t {
 		case PathFieldId:
 			id := path.id()
+			f := desc.Struct().FieldById(id)
+			if f == nil {
+				return errValue(meta.ErrUnknownField, fmt.Sprintf("field id %d is not defined in IDL", id), nil)
+			}
 			tt, start, err = searchFieldId(&p, id)
-			desc = desc.Struct().FieldById(id).Type()
+			desc = f.Type()
 			isList = tt == thrift.LIST
 		case PathFieldName:
 			id := path.str()
